@@ -403,3 +403,21 @@ package core
 //@   loop 1 ghostfn cb(rangeindex + 1) = ncalls("sig:core.emitCallback")
 //@   loop 1 invariant[C08] each: rangeindex >= 0 ==> ncalls("sig:core.emitCallback") == cb(rangeindex) + 1 && lastarg("sig:core.emitCallback", x) == stride.Emitted[rangeindex] && lastret("sig:core.emitCallback", err) == nil
 //@   ensures[C08] stops: err != nil ==> err == lastret("sig:core.emitCallback", err)
+
+// ---- versions of a spec (C12) ----
+
+// A new version made by copying shares no branch object with the original:
+// Compile and edits of the copy must not write into a specification that
+// machines are still walking.
+//@ func (*Branch).Copy returns r
+//@   safety C12
+//@   modifies nothing
+//@   ensures[C12] own: (b == nil ==> r == nil) && (b != nil ==> r != nil && fresh(r) && r.Target == b.Target)
+//@ func (*Branches).Copy returns r
+//@   safety C12
+//@   modifies nothing
+//@   ensures[C12] deep: (b == nil ==> r == nil) && (b != nil ==> r != nil && fresh(r) && len(r.Branches) == len(b.Branches))
+//@   ensures[C12] ownbranches: b != nil ==> forall j int :: 0 <= j && j < len(r.Branches) ==> (b.Branches[j] == nil ? r.Branches[j] == nil : r.Branches[j] != nil && fresh(r.Branches[j]))
+//@   loop 0 invariant fresh(modes) && len(modes) == len(b.Modes)
+//@   loop 1 invariant fresh(modes) && fresh(bs) && len(bs) == len(b.Branches)
+//@   loop 1 invariant[C12] forall j int :: 0 <= j && j <= rangeindex ==> (b.Branches[j] == nil ? bs[j] == nil : bs[j] != nil && fresh(bs[j]))
